@@ -4,8 +4,11 @@ import (
 	"encoding/json"
 	"flag"
 	"fmt"
+	"io/fs"
 	"os"
+	"path/filepath"
 	"sort"
+	"strings"
 )
 
 type propDef struct {
@@ -29,6 +32,7 @@ func main() {
 	p := flag.String("p", "", "property id (Cxx) or 'all'")
 	tier := flag.String("tier", "quick", "quick|thorough")
 	repo := flag.String("repo", "/repo", "repository root")
+	overlayDir := flag.String("overlay-dir", "", "directory mirroring repo-relative paths whose files replace the repository's (virtual variant, nothing is written to the repo)")
 	list := flag.Bool("list", false, "list registered properties")
 	manifest := flag.Bool("manifest", false, "print manifest texts of registered properties as JSON")
 	flag.Parse()
@@ -62,6 +66,20 @@ func main() {
 		os.Exit(2)
 	}
 	c := newCtx(d.id, *tier)
+	if *overlayDir != "" {
+		c.overlay = map[string][]byte{}
+		filepath.WalkDir(*overlayDir, func(p string, de fs.DirEntry, err error) error {
+			if err != nil || de.IsDir() || !strings.HasSuffix(p, ".go") {
+				return nil
+			}
+			rel, _ := filepath.Rel(*overlayDir, p)
+			b, rerr := os.ReadFile(p)
+			if rerr == nil {
+				c.overlay[filepath.Join(repoDir, rel)] = b
+			}
+			return nil
+		})
+	}
 	func() {
 		defer func() {
 			if r := recover(); r != nil {
